@@ -440,7 +440,7 @@ template <class S, class DstImg, int N> void view_case(const char* dname) {
     auto sv = gil::const_view(simg);
     // expectation: color_convert pixel by pixel into a destination image through its view's references
     DstImg expect(w, h), viacopy(w, h), viaccv(w, h), viastep(w, h);
-    for (int y = 0; y < h; ++y) for (int x = 0; x < w; ++x) { auto ref = gil::view(expect)(x, y); gil::color_convert(sv(x, y), ref); }
+    for (int y = 0; y < h; ++y) for (int x = 0; x < w; ++x) { auto&& ref = gil::view(expect)(x, y); gil::color_convert(sv(x, y), ref); }
     gil::copy_and_convert_pixels(sv, gil::view(viacopy));
     auto cv = gil::color_converted_view<DV>(sv);
     for (int y = 0; y < h; ++y) for (int x = 0; x < w; ++x) { DV p = cv(x, y); gil::view(viaccv)(x, y) = p; }
